@@ -380,3 +380,471 @@ Proof.
     rewrite Hid in Hnd. exact Hnd.
   - rewrite (del_node_absent _ _ E). exact E.
 Qed.
+
+(* ------------------------------------------------------------------ *)
+(* enumeration of reps                                                  *)
+
+Definition optl {A} (o : option A) : list A := match o with Some x => [x] | None => [] end.
+Definition sb_reps (sb : slotbase) : list rep := optl (sb_rep sb).
+Definition slot_reps (o : option slotbase) : list rep :=
+  match o with Some sb => sb_reps sb | None => [] end.
+Definition var_reps_l (l : list (N * option slotbase)) : list rep :=
+  flat_map (fun p => slot_reps (snd p)) l.
+Definition nodes_reps (l : list node) : list rep := flat_map (fun nd => sb_reps (n_sb nd)) l.
+Definition node_reps_l (l : list (N * impl)) : list rep :=
+  flat_map (fun p => nodes_reps (i_nodes (snd p))) l.
+Definition var_reps (st : state) := var_reps_l (slots st).
+Definition node_reps (st : state) := node_reps_l (impls st).
+Definition all_reps (st : state) := var_reps st ++ node_reps st.
+
+Lemma var_reps_l_app a b : var_reps_l (a ++ b) = var_reps_l a ++ var_reps_l b.
+Proof. apply flat_map_app. Qed.
+Lemma nodes_reps_app a b : nodes_reps (a ++ b) = nodes_reps a ++ nodes_reps b.
+Proof. apply flat_map_app. Qed.
+Lemma node_reps_l_app a b : node_reps_l (a ++ b) = node_reps_l a ++ node_reps_l b.
+Proof. apply flat_map_app. Qed.
+
+Lemma var_reps_present s l o : aget s l = Some o ->
+  exists A B, var_reps_l l = A ++ slot_reps o ++ B /\
+              forall o', var_reps_l (aset s o' l) = A ++ slot_reps o' ++ B.
+Proof.
+  intro H. destruct (aget_split _ _ _ H) as (l1 & l2 & -> & Hn).
+  exists (var_reps_l l1), (var_reps_l l2). split.
+  - rewrite var_reps_l_app. reflexivity.
+  - intro o'. rewrite (aset_split _ _ _ _ _ Hn), var_reps_l_app. reflexivity.
+Qed.
+
+Lemma var_reps_absent s l o' : aget s l = None ->
+  var_reps_l (aset s o' l) = var_reps_l l ++ slot_reps o'.
+Proof.
+  intro H. rewrite (aset_absent _ _ _ H), var_reps_l_app. cbn [var_reps_l flat_map snd].
+  rewrite app_nil_r. reflexivity.
+Qed.
+
+Lemma node_reps_present i l im : aget i l = Some im ->
+  exists A B, node_reps_l l = A ++ nodes_reps (i_nodes im) ++ B /\
+              (forall im', node_reps_l (aset i im' l) = A ++ nodes_reps (i_nodes im') ++ B) /\
+              node_reps_l (adel i l) = A ++ B.
+Proof.
+  intro H. destruct (aget_split _ _ _ H) as (l1 & l2 & -> & Hn).
+  exists (node_reps_l l1), (node_reps_l l2). split; [|split].
+  - rewrite node_reps_l_app. reflexivity.
+  - intro im'. rewrite (aset_split _ _ _ _ _ Hn), node_reps_l_app. reflexivity.
+  - rewrite (adel_split _ _ _ _ Hn), node_reps_l_app. reflexivity.
+Qed.
+
+Lemma node_reps_absent i l im' : aget i l = None ->
+  node_reps_l (aset i im' l) = node_reps_l l ++ nodes_reps (i_nodes im').
+Proof.
+  intro H. rewrite (aset_absent _ _ _ H), node_reps_l_app. cbn [node_reps_l flat_map snd].
+  rewrite app_nil_r. reflexivity.
+Qed.
+
+Lemma nodes_reps_find n l nd : find_node n l = Some nd ->
+  exists A B, nodes_reps l = A ++ sb_reps (n_sb nd) ++ B /\
+              (forall sb', nodes_reps (set_node n sb' l) = A ++ sb_reps sb' ++ B) /\
+              nodes_reps (del_node n l) = A ++ B.
+Proof.
+  intro H. destruct (find_node_split _ _ _ H) as (l1 & l2 & -> & Hn & Hid).
+  exists (nodes_reps l1), (nodes_reps l2). split; [|split].
+  - rewrite nodes_reps_app. reflexivity.
+  - intro sb'. rewrite (set_node_split _ _ _ _ _ Hn Hid), nodes_reps_app. reflexivity.
+  - rewrite (del_node_split _ _ _ _ Hn Hid), nodes_reps_app. reflexivity.
+Qed.
+
+Lemma in_nodes_reps r l : In r (nodes_reps l) <-> exists nd, In nd l /\ sb_rep (n_sb nd) = Some r.
+Proof.
+  unfold nodes_reps. rewrite in_flat_map. split; intros (nd & Hi & H); exists nd; split; auto.
+  - unfold sb_reps, optl in H. destruct (sb_rep (n_sb nd)); [destruct H as [->|[]]; reflexivity|destruct H].
+  - unfold sb_reps. rewrite H. left; reflexivity.
+Qed.
+
+Lemma in_node_reps_l r l : In r (node_reps_l l) <->
+  exists i im, In (i, im) l /\ In r (nodes_reps (i_nodes im)).
+Proof.
+  unfold node_reps_l. rewrite in_flat_map. split.
+  - intros ([i im] & Hi & H). exists i, im. auto.
+  - intros (i & im & Hi & H). exists (i, im). auto.
+Qed.
+
+Lemma in_var_reps_l r l : In r (var_reps_l l) <->
+  exists s sb, In (s, Some sb) l /\ sb_rep sb = Some r.
+Proof.
+  unfold var_reps_l. rewrite in_flat_map. split.
+  - intros ([s o] & Hi & H). cbn [snd] in H. destruct o as [sb|]; [|destruct H].
+    exists s, sb. split; [exact Hi|]. unfold slot_reps, sb_reps, optl in H.
+    destruct (sb_rep sb); [destruct H as [->|[]]; reflexivity|destruct H].
+  - intros (s & sb & Hi & H). exists (s, Some sb). split; [exact Hi|].
+    cbn [snd slot_reps]. unfold sb_reps. rewrite H. left; reflexivity.
+Qed.
+
+(* ------------------------------------------------------------------ *)
+(* get_sb / set_sb                                                      *)
+
+Definition loc_eqb (a b : loc) : bool :=
+  match a, b with
+  | LVar x, LVar y => N.eqb x y
+  | LNode i n, LNode j m => N.eqb i j && nid_eqb n m
+  | _, _ => false
+  end.
+
+Lemma loc_eqb_spec a b : reflect (a = b) (loc_eqb a b).
+Proof.
+  destruct a as [x|i n], b as [y|j m]; cbn [loc_eqb]; try (constructor; congruence).
+  - destruct (N.eqb_spec x y); constructor; congruence.
+  - destruct (N.eqb_spec i j); cbn [andb]; [|constructor; congruence].
+    destruct (nid_eqb_spec n m); constructor; congruence.
+Qed.
+
+Lemma get_sb_var s st : get_sb (LVar s) st =
+  match aget s (slots st) with Some (Some sb) => Some sb | _ => None end.
+Proof. reflexivity. Qed.
+
+Lemma get_sb_node i n st : get_sb (LNode i n) st =
+  match aget i (impls st) with Some im => option_map n_sb (find_node n (i_nodes im)) | None => None end.
+Proof. reflexivity. Qed.
+
+Lemma get_sb_node_inv i n st sb : get_sb (LNode i n) st = Some sb ->
+  exists im nd, aget i (impls st) = Some im /\ find_node n (i_nodes im) = Some nd /\ n_sb nd = sb.
+Proof.
+  rewrite get_sb_node. destruct (aget i (impls st)) as [im|] eqn:Hi; [|discriminate].
+  destruct (find_node n (i_nodes im)) as [nd|] eqn:Hf; cbn [option_map]; [|discriminate].
+  intro H. inversion H. exists im, nd. repeat split; [exact Hf].
+Qed.
+
+Lemma get_sb_var_inv s st sb : get_sb (LVar s) st = Some sb -> aget s (slots st) = Some (Some sb).
+Proof.
+  rewrite get_sb_var. destruct (aget s (slots st)) as [[x|]|]; congruence.
+Qed.
+
+Lemma get_set_sb_same l st sb sb' : get_sb l st = Some sb -> get_sb l (set_sb l sb' st) = Some sb'.
+Proof.
+  destruct l as [s|i n]; intro H.
+  - unfold set_sb, get_sb. cbn [slots with_slots]. rewrite aget_aset_same. reflexivity.
+  - destruct (get_sb_node_inv _ _ _ _ H) as (im & nd & Hi & Hf & _).
+    unfold set_sb. rewrite Hi. unfold get_sb, set_impl. cbn [impls with_impls].
+    rewrite aget_aset_same. cbn [i_nodes with_nodes]. rewrite find_node_set_node, nid_eqb_refl, Hf.
+    reflexivity.
+Qed.
+
+Lemma get_set_sb_other l l' st sb' : l' <> l -> get_sb l' (set_sb l sb' st) = get_sb l' st.
+Proof.
+  intro Hn. destruct l as [s|i n], l' as [s'|i' n']; unfold set_sb.
+  - unfold get_sb. cbn [slots with_slots]. rewrite aget_aset_other; [reflexivity|congruence].
+  - reflexivity.
+  - destruct (aget i (impls st)) eqn:Hi; [|reflexivity]. reflexivity.
+  - destruct (aget i (impls st)) as [im|] eqn:Hi; [|reflexivity].
+    unfold get_sb, set_impl. cbn [impls with_impls]. rewrite aget_aset.
+    destruct (N.eqb_spec i' i) as [->|Hni].
+    + rewrite Hi. cbn [i_nodes with_nodes]. rewrite find_node_set_node.
+      destruct (nid_eqb_spec n' n) as [->|]; [congruence|reflexivity].
+    + reflexivity.
+Qed.
+
+Lemma set_sb_reps l st sb sb' : get_sb l st = Some sb ->
+  exists A B,
+    match l with
+    | LVar _ => var_reps st = A ++ sb_reps sb ++ B /\ var_reps (set_sb l sb' st) = A ++ sb_reps sb' ++ B
+                /\ node_reps (set_sb l sb' st) = node_reps st
+    | LNode _ _ => node_reps st = A ++ sb_reps sb ++ B /\ node_reps (set_sb l sb' st) = A ++ sb_reps sb' ++ B
+                /\ var_reps (set_sb l sb' st) = var_reps st
+    end.
+Proof.
+  destruct l as [s|i n]; intro H.
+  - apply get_sb_var_inv in H. destruct (var_reps_present _ _ _ H) as (A & B & H1 & H2).
+    exists A, B. split; [exact H1|]. split; [|reflexivity].
+    unfold var_reps, set_sb. cbn [slots with_slots]. apply (H2 (Some sb')).
+  - destruct (get_sb_node_inv _ _ _ _ H) as (im & nd & Hi & Hf & Hsb). subst sb.
+    destruct (node_reps_present _ _ _ Hi) as (A & B & H1 & H2 & _).
+    destruct (nodes_reps_find _ _ _ Hf) as (A' & B' & H1' & H2' & _).
+    exists (A ++ A'), (B' ++ B). unfold node_reps, set_sb. rewrite Hi.
+    unfold set_impl. cbn [impls with_impls]. split; [|split; [|reflexivity]].
+    + rewrite H1, H1'. rewrite <- !app_assoc. reflexivity.
+    + rewrite H2. cbn [i_nodes with_nodes]. rewrite H2'. rewrite <- !app_assoc. reflexivity.
+Qed.
+
+Lemma all_reps_set_sb l st sb sb' : get_sb l st = Some sb ->
+  exists A B, all_reps st = A ++ sb_reps sb ++ B /\ all_reps (set_sb l sb' st) = A ++ sb_reps sb' ++ B.
+Proof.
+  intro H. destruct (set_sb_reps l st sb sb' H) as (A & B & HH). unfold all_reps. destruct l.
+  - destruct HH as (H1 & H2 & H3). rewrite H1, H2, H3. exists A, (B ++ node_reps st).
+    rewrite <- !app_assoc. split; reflexivity.
+  - destruct HH as (H1 & H2 & H3). rewrite H1, H2, H3. exists (var_reps st ++ A), B.
+    rewrite <- !app_assoc. split; reflexivity.
+Qed.
+
+Lemma get_sb_in_reps l st sb r : get_sb l st = Some sb -> sb_rep sb = Some r ->
+  match l with LVar _ => In r (var_reps st) | LNode _ _ => In r (node_reps st) end.
+Proof.
+  intros H Hr. destruct (set_sb_reps l st sb sb H) as (A & B & HH).
+  destruct l; destruct HH as (H1 & _); rewrite H1; unfold sb_reps; rewrite Hr;
+    apply in_or_app; right; left; reflexivity.
+Qed.
+
+(* set_sb only touches slots (LVar) or impls (LNode) *)
+Lemma set_sb_other_fields l sb st :
+  sigs (set_sb l sb st) = sigs st /\ tracks (set_sb l sb st) = tracks st /\
+  conns (set_sb l sb st) = conns st /\ sconns (set_sb l sb st) = sconns st /\
+  next_rid (set_sb l sb st) = next_rid st /\ next_nid (set_sb l sb st) = next_nid st /\
+  next_iid (set_sb l sb st) = next_iid st /\ next_ph (set_sb l sb st) = next_ph st.
+Proof.
+  destruct l as [s|i n]; unfold set_sb; [repeat split|].
+  destruct (aget i (impls st)); repeat split.
+Qed.
+
+(* ------------------------------------------------------------------ *)
+(* find_rep                                                             *)
+
+Lemma find_node_in_nodup nd l : NoDup (ids l) -> In nd l -> find_node (n_id nd) l = Some nd.
+Proof.
+  unfold ids. induction l as [|x l IH]; cbn [map In find_node]; [tauto|].
+  intros Hnd [E|Hi].
+  - subst. rewrite nid_eqb_refl. reflexivity.
+  - inversion Hnd as [|? ? Hx Hnd']; subst.
+    destruct (nid_eqb_spec (n_id x) (n_id nd)) as [E|Hn].
+    + exfalso. apply Hx. rewrite E. apply in_map. exact Hi.
+    + apply IH; assumption.
+Qed.
+
+Lemma find_in_slots_sound rid l lc : find_in_slots rid l = Some lc ->
+  exists s sb r, lc = LVar s /\ In (s, Some sb) l /\ sb_rep sb = Some r /\ r_id r = rid.
+Proof.
+  induction l as [|[s [sb|]] l IH]; cbn [find_in_slots]; [discriminate| |].
+  - unfold sb_has_rid. destruct (sb_rep sb) as [r|] eqn:Hr.
+    + destruct (N.eqb_spec (r_id r) rid) as [E|Hn]; intro H.
+      * inversion H; subst. exists s, sb, r. repeat split; auto. left; reflexivity.
+      * destruct (IH H) as (s' & sb' & r' & ? & ? & ? & ?). exists s', sb', r'. repeat split; auto. right; assumption.
+    + intro H. destruct (IH H) as (s' & sb' & r' & ? & ? & ? & ?). exists s', sb', r'. repeat split; auto. right; assumption.
+  - intro H. destruct (IH H) as (s' & sb' & r' & ? & ? & ? & ?). exists s', sb', r'. repeat split; auto. right; assumption.
+Qed.
+
+Lemma find_in_nodes_sound rid i l lc : find_in_nodes rid i l = Some lc ->
+  exists nd r, lc = LNode i (n_id nd) /\ In nd l /\ sb_rep (n_sb nd) = Some r /\ r_id r = rid.
+Proof.
+  induction l as [|x l IH]; cbn [find_in_nodes]; [discriminate|].
+  unfold sb_has_rid. destruct (sb_rep (n_sb x)) as [r|] eqn:Hr.
+  - destruct (N.eqb_spec (r_id r) rid) as [E|Hn]; intro H.
+    + inversion H; subst. exists x, r. repeat split; auto. left; reflexivity.
+    + destruct (IH H) as (nd & r' & ? & ? & ? & ?). exists nd, r'. repeat split; auto. right; assumption.
+  - intro H. destruct (IH H) as (nd & r' & ? & ? & ? & ?). exists nd, r'. repeat split; auto. right; assumption.
+Qed.
+
+Lemma find_in_impls_sound rid l lc : find_in_impls rid l = Some lc ->
+  exists i im, In (i, im) l /\ find_in_nodes rid i (i_nodes im) = Some lc.
+Proof.
+  induction l as [|[i im] l IH]; cbn [find_in_impls]; [discriminate|].
+  destruct (find_in_nodes rid i (i_nodes im)) as [lc'|] eqn:E; intro H.
+  - inversion H; subst. exists i, im. split; [left; reflexivity|exact E].
+  - destruct (IH H) as (i' & im' & ? & ?). exists i', im'. split; [right; assumption|assumption].
+Qed.
+
+Definition keys_ok (st : state) : Prop :=
+  NoDup (akeys (slots st)) /\ NoDup (akeys (impls st)) /\
+  (forall i im, aget i (impls st) = Some im -> NoDup (ids (i_nodes im))).
+
+Lemma find_rep_sound rid st l : keys_ok st -> find_rep rid st = Some l ->
+  exists sb r, get_sb l st = Some sb /\ sb_rep sb = Some r /\ r_id r = rid.
+Proof.
+  intros (Hs & Hi & Hn). unfold find_rep.
+  destruct (find_in_slots rid (slots st)) as [lc|] eqn:E.
+  - intro H. inversion H; subst lc. destruct (find_in_slots_sound _ _ _ E) as (s & sb & r & -> & Hin & Hr & Hid).
+    exists sb, r. split; [|auto]. rewrite get_sb_var. rewrite (in_aget_nodup _ _ _ Hs Hin). reflexivity.
+  - intro H. destruct (find_in_impls_sound _ _ _ H) as (i & im & Hin & H2).
+    destruct (find_in_nodes_sound _ _ _ _ H2) as (nd & r & -> & Hnd & Hr & Hid).
+    exists (n_sb nd), r. split; [|auto]. rewrite get_sb_node.
+    pose proof (in_aget_nodup _ _ _ Hi Hin) as Hg. rewrite Hg.
+    rewrite (find_node_in_nodup _ _ (Hn _ _ Hg) Hnd). reflexivity.
+Qed.
+
+Lemma find_in_slots_complete r l : In r (var_reps_l l) -> find_in_slots (r_id r) l <> None.
+Proof.
+  induction l as [|[s [sb|]] l IH]; cbn [find_in_slots]; unfold var_reps_l; cbn [flat_map snd slot_reps].
+  - tauto.
+  - intro H. apply in_app_or in H. unfold sb_has_rid, sb_reps, optl in *.
+    destruct (sb_rep sb) as [r'|].
+    + destruct (N.eqb_spec (r_id r') (r_id r)); [discriminate|].
+      destruct H as [[->|[]]|H]; [congruence|]. apply IH. exact H.
+    + destruct H as [[]|H]. apply IH. exact H.
+  - cbn [app]. exact IH.
+Qed.
+
+Lemma find_in_nodes_complete r i l : In r (nodes_reps l) -> find_in_nodes (r_id r) i l <> None.
+Proof.
+  induction l as [|x l IH]; cbn [find_in_nodes]; unfold nodes_reps; cbn [flat_map].
+  - tauto.
+  - intro H. apply in_app_or in H. unfold sb_has_rid, sb_reps, optl in *.
+    destruct (sb_rep (n_sb x)) as [r'|].
+    + destruct (N.eqb_spec (r_id r') (r_id r)); [discriminate|].
+      destruct H as [[->|[]]|H]; [congruence|]. apply IH. exact H.
+    + destruct H as [[]|H]. apply IH. exact H.
+Qed.
+
+Lemma find_in_impls_complete r l : In r (node_reps_l l) -> find_in_impls (r_id r) l <> None.
+Proof.
+  induction l as [|[i im] l IH]; cbn [find_in_impls]; unfold node_reps_l; cbn [flat_map snd].
+  - tauto.
+  - intro H. apply in_app_or in H.
+    destruct (find_in_nodes (r_id r) i (i_nodes im)) eqn:E; [discriminate|].
+    destruct H as [H|H]; [|apply IH; exact H].
+    exfalso. exact (find_in_nodes_complete _ i _ H E).
+Qed.
+
+Lemma find_rep_complete r st : In r (all_reps st) -> find_rep (r_id r) st <> None.
+Proof.
+  unfold all_reps, find_rep. intro H. apply in_app_or in H.
+  destruct (find_in_slots (r_id r) (slots st)) eqn:E; [discriminate|].
+  destruct H as [H|H].
+  - exfalso. exact (find_in_slots_complete _ _ H E).
+  - apply find_in_impls_complete. exact H.
+Qed.
+
+Lemma find_rep_none rid st : find_rep rid st = None -> forall r, In r (all_reps st) -> r_id r <> rid.
+Proof.
+  intros H r Hi E. subst rid. exact (find_rep_complete _ _ Hi H).
+Qed.
+
+(* ------------------------------------------------------------------ *)
+(* demand (what functors ask of trackables) and callback-entry counting *)
+
+Definition refs_of (r : rep) : list N := match r_fn r with Some f => f_refs f | None => [] end.
+Definition demand := list (N * list N).
+Definition dem_of (rs : list rep) : demand := map (fun r => (r_id r, refs_of r)) rs.
+
+Fixpoint dem (t rid : N) (D : demand) : nat :=
+  match D with
+  | [] => O
+  | (rid', refs) :: D' => ((if N.eqb rid' rid then count_occ N.eq_dec refs t else O) + dem t rid D')%nat
+  end.
+
+Lemma dem_app t rid a b : dem t rid (a ++ b) = (dem t rid a + dem t rid b)%nat.
+Proof.
+  induction a as [|[rid' refs] a IH]; cbn [dem app]; [reflexivity|]. rewrite IH. lia.
+Qed.
+
+Lemma dem_perm t rid a b : Permutation a b -> dem t rid a = dem t rid b.
+Proof.
+  induction 1 as [|[x xs] a b _ IH|[x xs] [y ys] a|a b c _ IH1 _ IH2]; cbn [dem]; try lia.
+Qed.
+
+Lemma dem_of_app a b : dem_of (a ++ b) = dem_of a ++ dem_of b.
+Proof. apply map_app. Qed.
+
+Lemma dem_pos_in t rid D : (0 < dem t rid D)%nat -> exists refs, In (rid, refs) D /\ In t refs.
+Proof.
+  induction D as [|[rid' refs] D IH]; cbn [dem]; [lia|].
+  destruct (N.eqb_spec rid' rid) as [->|Hn].
+  - destruct (count_occ N.eq_dec refs t) eqn:E.
+    + intro H. destruct (IH H) as (x & ? & ?). exists x. split; [right|]; assumption.
+    + intros _. exists refs. split; [left; reflexivity|].
+      apply (count_occ_In N.eq_dec). lia.
+  - intro H. destruct (IH H) as (x & ? & ?). exists x. split; [right|]; assumption.
+Qed.
+
+Lemma dem_in_pos t rid refs D : In (rid, refs) D -> In t refs -> (0 < dem t rid D)%nat.
+Proof.
+  induction D as [|[rid' refs'] D IH]; cbn [dem In]; [tauto|].
+  intros [E|Hi] Ht.
+  - inversion E; subst. rewrite N.eqb_refl. apply (count_occ_In N.eq_dec) in Ht. lia.
+  - specialize (IH Hi Ht). lia.
+Qed.
+
+Definition cnt (rid : N) (l : list (N * bool)) : nat :=
+  length (filter (fun e => N.eqb (fst e) rid && snd e) l).
+
+Lemma cnt_app rid a b : cnt rid (a ++ b) = (cnt rid a + cnt rid b)%nat.
+Proof. unfold cnt. rewrite filter_app, app_length. reflexivity. Qed.
+
+Lemma cnt_cons rid d f l :
+  cnt rid ((d, f) :: l) = ((if N.eqb d rid && f then 1 else 0) + cnt rid l)%nat.
+Proof. unfold cnt. cbn [filter fst snd]. destruct (N.eqb d rid && f); reflexivity. Qed.
+
+Lemma cnt_erase rid rid' l :
+  cnt rid' (cb_erase_first rid l) = if N.eqb rid' rid then pred (cnt rid l) else cnt rid' l.
+Proof.
+  induction l as [|[d f] l IH]; cbn [cb_erase_first].
+  - destruct (N.eqb rid' rid); reflexivity.
+  - destruct (N.eqb_spec d rid) as [->|Hd]; destruct f; cbn [andb]; rewrite ?cnt_cons, ?IH;
+      destruct (N.eqb_spec rid' rid) as [->|Hn]; rewrite ?cnt_cons, ?N.eqb_refl; cbn [andb];
+      repeat match goal with |- context [N.eqb ?a ?b] => destruct (N.eqb_spec a b); try congruence end;
+      cbn [andb]; rewrite ?andb_false_r; try lia.
+Qed.
+
+Lemma cnt_null rid rid' l :
+  cnt rid' (cb_null_first rid l) = if N.eqb rid' rid then pred (cnt rid l) else cnt rid' l.
+Proof.
+  induction l as [|[d f] l IH]; cbn [cb_null_first].
+  - destruct (N.eqb rid' rid); reflexivity.
+  - destruct (N.eqb_spec d rid) as [->|Hd]; destruct f; cbn [andb]; rewrite ?cnt_cons, ?IH;
+      destruct (N.eqb_spec rid' rid) as [->|Hn]; rewrite ?cnt_cons, ?N.eqb_refl; cbn [andb];
+      repeat match goal with |- context [N.eqb ?a ?b] => destruct (N.eqb_spec a b); try congruence end;
+      cbn [andb]; rewrite ?andb_false_r; try lia.
+Qed.
+
+Lemma null_length rid l : length (cb_null_first rid l) = length l.
+Proof.
+  induction l as [|[d f] l IH]; cbn [cb_null_first]; [reflexivity|].
+  destruct (N.eqb d rid && f); cbn [length]; [reflexivity|]. rewrite IH. reflexivity.
+Qed.
+
+Lemma null_nth rid l j d f : nth_error l j = Some (d, f) ->
+  exists f', nth_error (cb_null_first rid l) j = Some (d, f') /\ (f = false -> f' = false).
+Proof.
+  revert j. induction l as [|[d0 f0] l IH]; intros [|j]; cbn [nth_error cb_null_first]; try discriminate.
+  - intro H. inversion H; subst. destruct (N.eqb d rid && f) eqn:E; cbn [nth_error].
+    + exists false. split; reflexivity.
+    + exists f. split; auto.
+  - intro H. destruct (N.eqb d0 rid && f0); cbn [nth_error]; [exists f; split; auto|]. apply IH. exact H.
+Qed.
+
+Lemma cnt_zero_all_false rid l : (forall j d f, nth_error l j = Some (d, f) -> f = false) -> cnt rid l = O.
+Proof.
+  induction l as [|[d f] l IH]; intro H; [reflexivity|].
+  rewrite cnt_cons. rewrite (H O d f eq_refl), andb_false_r. cbn [Nat.add]. apply IH.
+  intros j d' f' Hj. exact (H (S j) d' f' Hj).
+Qed.
+
+Lemma cnt_pos_nth rid l j : nth_error l j = Some (rid, true) -> (0 < cnt rid l)%nat.
+Proof.
+  revert j. induction l as [|[d f] l IH]; intros [|j]; cbn [nth_error]; try discriminate.
+  - intro H. inversion H; subst. rewrite cnt_cons, N.eqb_refl. cbn [andb]. lia.
+  - intro H. rewrite cnt_cons. specialize (IH _ H). lia.
+Qed.
+
+(* ------------------------------------------------------------------ *)
+(* connection pointers                                                  *)
+
+Lemma get_set_connptr w w' p st :
+  get_connptr w' (set_connptr w p st) = if wref_eqb w' w then Some p else get_connptr w' st.
+Proof.
+  destruct w as [c|k], w' as [c'|k']; cbn [wref_eqb set_connptr get_connptr conns sconns with_conns with_sconns];
+    try reflexivity; rewrite aget_aset.
+  - destruct (N.eqb c' c); reflexivity.
+  - destruct (N.eqb k' k); reflexivity.
+Qed.
+
+Lemma get_connptr_null_watchers ws : forall st w,
+  get_connptr w (null_watchers ws st) =
+  if existsb (wref_eqb w) ws then Some None else get_connptr w st.
+Proof.
+  induction ws as [|w0 ws IH]; intros st w; cbn [null_watchers existsb]; [reflexivity|].
+  rewrite IH, get_set_connptr. destruct (existsb (wref_eqb w) ws); [rewrite orb_true_r; reflexivity|].
+  rewrite orb_false_r. reflexivity.
+Qed.
+
+Lemma existsb_wref w ws : existsb (wref_eqb w) ws = true <-> In w ws.
+Proof.
+  rewrite existsb_exists. split.
+  - intros (x & Hx & E). apply wref_eqb_eq in E. subst. exact Hx.
+  - intro H. exists w. split; [exact H|]. apply wref_eqb_eq. reflexivity.
+Qed.
+
+Lemma null_watchers_fields ws : forall st,
+  slots (null_watchers ws st) = slots st /\ sigs (null_watchers ws st) = sigs st /\
+  impls (null_watchers ws st) = impls st /\ tracks (null_watchers ws st) = tracks st /\
+  next_rid (null_watchers ws st) = next_rid st /\ next_nid (null_watchers ws st) = next_nid st /\
+  next_iid (null_watchers ws st) = next_iid st /\ next_ph (null_watchers ws st) = next_ph st.
+Proof.
+  induction ws as [|w ws IH]; intro st; cbn [null_watchers]; [repeat split|].
+  destruct (IH (set_connptr w None st)) as (H1 & H2 & H3 & H4 & H5 & H6 & H7 & H8).
+  rewrite H1, H2, H3, H4, H5, H6, H7, H8. destruct w; repeat split.
+Qed.
